@@ -33,6 +33,13 @@ fn main() {
             _ if v["replay"]["engine"].as_str() == Some("crash") => checks_crash::replay(&v),
             _ if v["replay"]["engine"].as_str() == Some("boot-files") => checks_crash::replay_boot_files(&v),
             _ if v["replay"]["engine"].as_str() == Some("node-reply") => checks_outage::replay_reply(&v),
+            _ if v["replay"]["engine"].as_str() == Some("conform-outage") => match conform::outage_recovery() {
+                Ok(()) => 0,
+                Err((s, d)) => {
+                    println!("VIOL {s} :: {d}");
+                    1
+                }
+            },
             _ if v["replay"]["engine"].as_str() == Some("S") => checks_s::replay(&v),
             _ if v["replay"]["engine"].as_str() == Some("outage") => checks_outage::replay(&v),
             _ if v["replay"]["engine"].as_str() == Some("P") => checks_p::replay(&v),
